@@ -45,6 +45,7 @@ func Load(repo string, extraEnv ...string) (*Prog, error) {
 	env = append(env, extraEnv...)
 	var overlay map[string][]byte
 	var normalized []string
+	DetectRenames(repo)
 	if os.Getenv("VSA_NO_NORMALIZE") == "" {
 		ov, done, err := Normalize(repo, env)
 		if err != nil {
@@ -138,7 +139,19 @@ func FnName(fn *ssa.Function) string {
 	if fn == nil {
 		return "<nil>"
 	}
-	return Short(fn.RelString(nil))
+	return baselineName(Short(fn.RelString(nil)))
+}
+
+// BaseShortName is the unqualified name of fn, by its baseline name when it was renamed.
+func BaseShortName(fn *ssa.Function) string {
+	if len(renamedFns) == 0 || fn.Parent() != nil {
+		return fn.Name()
+	}
+	if b, ok := renamedFns[Short(fn.RelString(nil))]; ok {
+		_, bare := splitFnName(b)
+		return bare
+	}
+	return fn.Name()
 }
 
 // Fn returns the named function or nil.
